@@ -94,6 +94,35 @@ type Node interface {
 	setNext(next Node)
 }
 
+// writeOperand writes node to buf as the operand of an operator, predicate,
+// subscript, or filter, or as the root of a path. A node followed by an
+// accessor (node.Next() is not nil) is always parenthesized when it's an
+// operator or predicate, because otherwise the accessor would bind to its
+// last operand when the output is parsed again, e.g., (2 * 3).abs() + 1.
+func writeOperand(buf *strings.Builder, node Node, withParens bool) {
+	next := node.Next()
+	if next == nil {
+		node.writeTo(buf, false, withParens)
+		return
+	}
+
+	if unary, ok := node.(*UnaryNode); ok {
+		switch unary.op {
+		case UnaryExists, UnaryNot, UnaryIsUnknown:
+			// These never write their own parentheses.
+			buf.WriteRune('(')
+			NewUnary(unary.op, unary.operand).writeTo(buf, false, false)
+			buf.WriteRune(')')
+			next.writeTo(buf, true, true)
+			return
+		default:
+			// Handled by withParens.
+		}
+	}
+
+	node.writeTo(buf, false, true)
+}
+
 // lowestPriority is the lowest priority returned by priority, and the default
 // for most nodes.
 const lowestPriority = uint8(6)
@@ -566,10 +595,10 @@ func (n *BinaryNode) writeTo(buf *strings.Builder, _, withParens bool) {
 		}
 		buf.WriteRune(')')
 	case BinarySubscript:
-		n.left.writeTo(buf, false, false)
+		writeOperand(buf, n.left, false)
 		if n.right != nil {
 			buf.WriteString(" " + n.op.String() + " ")
-			n.right.writeTo(buf, false, false)
+			writeOperand(buf, n.right, false)
 		}
 	case BinaryAnd, BinaryOr, BinaryEqual, BinaryNotEqual, BinaryLess,
 		BinaryGreater, BinaryLessOrEqual, BinaryGreaterOrEqual,
@@ -579,9 +608,9 @@ func (n *BinaryNode) writeTo(buf *strings.Builder, _, withParens bool) {
 			buf.WriteRune('(')
 		}
 
-		n.left.writeTo(buf, false, n.left.priority() <= n.priority())
+		writeOperand(buf, n.left, n.left.priority() <= n.priority())
 		buf.WriteString(" " + n.op.String() + " ")
-		n.right.writeTo(buf, false, n.right.priority() <= n.priority())
+		writeOperand(buf, n.right, n.right.priority() <= n.priority())
 
 		if withParens {
 			buf.WriteRune(')')
@@ -653,16 +682,16 @@ func (n *UnaryNode) writeTo(buf *strings.Builder, _, withParens bool) {
 	switch n.op {
 	case UnaryExists:
 		buf.WriteString("exists (")
-		n.operand.writeTo(buf, false, false)
+		writeOperand(buf, n.operand, false)
 		buf.WriteRune(')')
 	case UnaryNot, UnaryFilter:
 		buf.WriteString(n.op.String())
 		buf.WriteRune('(')
-		n.operand.writeTo(buf, false, false)
+		writeOperand(buf, n.operand, false)
 		buf.WriteRune(')')
 	case UnaryIsUnknown:
 		buf.WriteRune('(')
-		n.operand.writeTo(buf, false, false)
+		writeOperand(buf, n.operand, false)
 		buf.WriteString(") is unknown")
 	case UnaryPlus, UnaryMinus:
 		if withParens {
@@ -670,7 +699,7 @@ func (n *UnaryNode) writeTo(buf *strings.Builder, _, withParens bool) {
 		}
 
 		buf.WriteString(n.op.String())
-		n.operand.writeTo(buf, false, n.operand.priority() <= n.priority())
+		writeOperand(buf, n.operand, n.operand.priority() <= n.priority())
 
 		if withParens {
 			buf.WriteRune(')')
@@ -907,7 +936,7 @@ func (n *RegexNode) writeTo(buf *strings.Builder, _, withParens bool) {
 		buf.WriteRune('(')
 	}
 
-	n.operand.writeTo(buf, false, n.operand.priority() <= n.priority())
+	writeOperand(buf, n.operand, n.operand.priority() <= n.priority())
 	fmt.Fprintf(buf, " like_regex %v%v", quote(n.pattern), n.flags)
 
 	if withParens {
@@ -973,7 +1002,7 @@ func (a *AST) String() string {
 	if !a.lax {
 		buf.WriteString("strict ")
 	}
-	a.root.writeTo(buf, false, true)
+	writeOperand(buf, a.root, true)
 	return buf.String()
 }
 
